@@ -195,13 +195,36 @@ class HandlerTraversal:
   def _inline(self, h, args, keywords, env, acc, depth):
     hp = h.params()
     amap = {}
+    extra = {}
+    given = {}
     for pn, a in zip(hp, args):
-      amap[pn] = self._path(a, env)
+      given[pn] = a
     for k in keywords:
       if k.arg in hp:
-        amap[k.arg] = self._path(k.value, env)
-    if not any(v is not None for v in amap.values()):
+        given[k.arg] = k.value
+    # defaults of parameters that were not passed
+    a_ = h.node.args
+    pos = [x.arg for x in a_.posonlyargs + a_.args]
+    for pn, d in zip(pos[len(pos) - len(a_.defaults):], a_.defaults):
+      if pn in hp and pn not in given:
+        given[pn] = d
+    for x, d in zip(a_.kwonlyargs, a_.kw_defaults):
+      if d is not None and x.arg in hp and x.arg not in given:
+        given[x.arg] = d
+    for pn, a in given.items():
+      amap[pn] = self._path(a, env)
+      if isinstance(a, ast.Constant) and (a.value is None or isinstance(a.value, bool)):
+        extra['#const:' + pn] = a.value
+      elif isinstance(a, ast.Name) and ('#const:' + a.id) in env:
+        extra['#const:' + pn] = env['#const:' + a.id]
+      elif isinstance(a, (ast.Tuple, ast.List)):
+        extra['#lit:' + pn] = (a, env)
+      elif isinstance(a, ast.Name) and ('#lit:' + a.id) in env:
+        extra['#lit:' + pn] = env['#lit:' + a.id]
+    if not any(v is not None for v in amap.values()) and not any(
+        k.startswith('#lit:') for k in extra):
       return
+    amap.update(extra)
     exits = []
     st = self._block(h.node.body, amap, {}, exits, h, depth + 1, [])
     res = st
@@ -210,6 +233,8 @@ class HandlerTraversal:
     if res:
       for k, v in res.items():
         acc.setdefault(k, set()).update(v)
+        if any(x.startswith('visit') for x in v):
+          acc[k].add('via:' + h.name)
 
   def _presence(self, test, env):
     """test is a presence check of a path: -> (path, positive?)"""
@@ -232,6 +257,24 @@ class HandlerTraversal:
     if p is not None and p != '':
       return p, pos
     return None
+
+  @staticmethod
+  def _const_test(t, env):
+    neg = False
+    if isinstance(t, ast.UnaryOp) and isinstance(t.op, ast.Not):
+      t, neg = t.operand, True
+    if isinstance(t, ast.Name) and ('#const:' + t.id) in env:
+      v = bool(env['#const:' + t.id])
+      return (not v) if neg else v
+    return None
+
+  def _returns_first_param(self, h):
+    ps = h.params()
+    if not ps:
+      return False
+    rets = [n for n in core.walk_no_nested(h.node) if isinstance(n, ast.Return)]
+    return bool(rets) and all(isinstance(r.value, ast.Name) and r.value.id == ps[0]
+                              for r in rets)
 
   def _iter_source(self, it, target, env):
     tgt = target
@@ -274,6 +317,10 @@ class HandlerTraversal:
     if isinstance(s, ast.Raise):
       return None
     if isinstance(s, ast.If):
+      cv = self._const_test(s.test, env)
+      if cv is not None:
+        return self._block(s.body if cv else s.orelse, env, cur, exits, fi,
+                           depth, guards)
       acc = dict(cur)
       self._gen_expr(s.test, env, acc, fi, depth)
       t_cur, f_cur = dict(acc), dict(acc)
@@ -287,6 +334,32 @@ class HandlerTraversal:
       if a is None and b is None:
         return None
       return self._merge(a, b)
+    if isinstance(s, (ast.For, ast.AsyncFor)) and isinstance(s.iter, ast.Name) \
+        and ('#lit:' + s.iter.id) in env and not any(
+            isinstance(n, (ast.Break, ast.Return)) for n in core.walk_no_nested(s)):
+      lit, lenv = env['#lit:' + s.iter.id]
+      acc = dict(cur)
+      for el in lit.elts:
+        env2 = dict(env)
+        tg = s.target
+        pairs = []
+        if isinstance(tg, ast.Name):
+          pairs = [(tg.id, el)]
+        elif isinstance(tg, ast.Tuple) and isinstance(el, (ast.Tuple, ast.List)) \
+            and len(tg.elts) == len(el.elts):
+          pairs = [(t.id, e) for t, e in zip(tg.elts, el.elts)
+                   if isinstance(t, ast.Name)]
+        for nm, e in pairs:
+          env2[nm] = self._path(e, lenv)
+        r = self._block(s.body, env2, acc, exits, fi, depth, guards)
+        if r is None:
+          return None
+        acc = r
+        # assignments to names of the enclosing function persist (x = helper(x))
+        for k, v in env2.items():
+          if k in env and not any(k == nm for nm, _ in pairs):
+            env[k] = v
+      return acc
     if isinstance(s, (ast.For, ast.AsyncFor)):
       acc = dict(cur)
       self._gen_expr(s.iter, env, acc, fi, depth)
@@ -358,6 +431,12 @@ class HandlerTraversal:
         elif isinstance(v, ast.Call) and v.args and self._path(
             v.args[0], env) is not None and isinstance(v.func, ast.Attribute) \
             and v.func.attr in ('visit', 'generic_visit', 'visit_block'):
+          env[t.id] = self._path(v.args[0], env)
+        elif isinstance(v, ast.Call) and v.args and isinstance(v.func, ast.Attribute) \
+            and isinstance(v.func.value, ast.Name) and v.func.value.id == 'self' \
+            and self._path(v.args[0], env) is not None and \
+            self.cls.find(v.func.attr) is not None and \
+            self._returns_first_param(self.cls.find(v.func.attr)):
           env[t.id] = self._path(v.args[0], env)
         elif t.id in env:
           env[t.id] = None
